@@ -55,6 +55,56 @@ FldTcp(b, o, hl) ==
   \o Sub(b, o + 20, hl - 20)
 FldIcmp(b, o) == <<B(b, o), B(b, o + 1), U16(b, o + 2)>> \o Sub(b, o + 4, 4)
 
+FldFrag(b, o) == <<B(b, o), U16(b, o + 2) \div 8, Bit(B(b, o + 3), 0)>> \o Sub(b, o + 4, 4)
+FldRawExt(b, o, hl) == <<B(b, o)>> \o Sub(b, o + 2, hl - 2)
+
+\* ---- encoders: field sequence -> bytes (inverse of Fld*; reserved bits are written as zero) --------------
+Seg(f, from, n) == SubSeq(f, from, from + n - 1)
+Tl(f, from) == SubSeq(f, from, Len(f))
+EncEth(f)  == Seg(f, 1, 12) \o Be16(f[13])
+EncSll(f)  == Be16(f[1]) \o Be16(f[2]) \o Be16(f[3]) \o Seg(f, 4, 8) \o Be16(f[12])
+EncVlan(f) == <<f[1] * 32 + f[2] * 16 + f[3] \div 256, f[3] % 256>> \o Be16(f[4])
+EncMacsec(f) ==
+  LET pt == f[1]  sc == f[11]
+      tci == f[5] + (IF pt \in {1, 2} THEN 4 ELSE 0) + (IF pt \in {2, 3} THEN 8 ELSE 0) + f[4] * 16 + sc * 32 + f[3] * 64
+  IN <<tci, f[6]>> \o Seg(f, 7, 4) \o (IF sc = 1 THEN Seg(f, 12, 8) ELSE <<>>) \o (IF pt = 0 THEN Be16(f[2]) ELSE <<>>)
+EncArp(f)  == Be16(f[1]) \o Be16(f[2]) \o <<f[3], f[4]>> \o Be16(f[5]) \o Tl(f, 6)
+EncIpv4(f) ==
+  LET opts == Tl(f, 19)  ihl == 5 + Len(opts) \div 4 IN
+  <<64 + ihl, f[1] * 4 + f[2]>> \o Be16(f[3]) \o Be16(f[4]) \o <<f[5] * 64 + f[6] * 32 + f[7] \div 256, f[7] % 256, f[8], f[9]>>
+  \o Be16(f[10]) \o Seg(f, 11, 8) \o opts
+EncAuth(f) == LET icv == Tl(f, 10) IN <<f[1], (Len(icv) + 12) \div 4 - 2, 0, 0>> \o Seg(f, 2, 8) \o icv
+EncIpv6(f) == <<96 + f[1] \div 16, (f[1] % 16) * 16 + f[2], f[3], f[4]>> \o Be16(f[5]) \o <<f[6], f[7]>> \o Seg(f, 8, 32)
+EncUdp(f)  == Be16(f[1]) \o Be16(f[2]) \o Be16(f[3]) \o Be16(f[4])
+EncTcp(f)  == Be16(f[1]) \o Be16(f[2]) \o Seg(f, 3, 8) \o <<f[11] * 16 + f[12] \div 256, f[12] % 256>>
+              \o Be16(f[13]) \o Be16(f[14]) \o Be16(f[15]) \o Tl(f, 16)
+EncIcmp(f) == <<f[1], f[2]>> \o Be16(f[3]) \o Seg(f, 4, 4)
+EncFrag(f) == <<f[1], 0, (f[2] * 8) \div 256, ((f[2] * 8) % 256) + f[3]>> \o Seg(f, 4, 4)
+EncRawExt(f) == LET pl == Tl(f, 2) IN <<f[1], (Len(pl) - 6) \div 8>> \o pl
+
+Enc(k, f) ==
+  CASE k = "eth" -> EncEth(f) [] k = "sll" -> EncSll(f) [] k = "vlan" -> EncVlan(f) [] k = "macsec" -> EncMacsec(f)
+    [] k = "arp" -> EncArp(f) [] k = "ipv4" -> EncIpv4(f) [] k = "auth" -> EncAuth(f) [] k = "ipv6" -> EncIpv6(f)
+    [] k = "udp" -> EncUdp(f) [] k = "tcp" -> EncTcp(f) [] k = "icmp4" -> EncIcmp(f) [] k = "icmp6" -> EncIcmp(f)
+    [] k = "frag" -> EncFrag(f) [] k = "rawext" -> EncRawExt(f)
+\* decode a complete header of kind k that starts at offset 0 of b
+Dec(k, b) ==
+  CASE k = "eth" -> FldEth(b, 0) [] k = "sll" -> FldSll(b, 0) [] k = "vlan" -> FldVlan(b, 0) [] k = "macsec" -> FldMacsec(b, 0, MsHdrLen(B(b, 0)))
+    [] k = "arp" -> FldArp(b, 0, 8 + 2 * B(b, 4) + 2 * B(b, 5)) [] k = "ipv4" -> FldIpv4(b, 0, 4 * Lo4(B(b, 0)))
+    [] k = "auth" -> FldAuth(b, 0, (B(b, 1) + 2) * 4) [] k = "ipv6" -> FldIpv6(b, 0) [] k = "udp" -> FldUdp(b, 0)
+    [] k = "tcp" -> FldTcp(b, 0, 4 * Hi4(B(b, 12))) [] k = "icmp4" -> FldIcmp(b, 0) [] k = "icmp6" -> FldIcmp(b, 0)
+    [] k = "frag" -> FldFrag(b, 0) [] k = "rawext" -> FldRawExt(b, 0, (B(b, 1) + 1) * 8)
+\* length of the header of kind k that starts at offset 0 of b (b long enough for the fixed part)
+HdrLen(k, b) ==
+  CASE k = "eth" -> 14 [] k = "sll" -> 16 [] k = "vlan" -> 4 [] k = "macsec" -> MsHdrLen(B(b, 0))
+    [] k = "arp" -> 8 + 2 * B(b, 4) + 2 * B(b, 5) [] k = "ipv4" -> 4 * Lo4(B(b, 0)) [] k = "auth" -> (B(b, 1) + 2) * 4
+    [] k = "ipv6" -> 40 [] k = "udp" -> 8 [] k = "tcp" -> 4 * Hi4(B(b, 12)) [] k = "icmp4" -> 8 [] k = "icmp6" -> 8
+    [] k = "frag" -> 8 [] k = "rawext" -> (B(b, 1) + 1) * 8
+\* bytes needed before the length is known
+FixLenOf(k) ==
+  CASE k = "eth" -> 14 [] k = "sll" -> 16 [] k = "vlan" -> 4 [] k = "macsec" -> 6 [] k = "arp" -> 8 [] k = "ipv4" -> 20 [] k = "auth" -> 12
+    [] k = "ipv6" -> 40 [] k = "udp" -> 8 [] k = "tcp" -> 20 [] k = "icmp4" -> 8 [] k = "icmp6" -> 8 [] k = "frag" -> 8 [] k = "rawext" -> 8
+
 \* ICMPv4 header length: timestamp / timestamp reply (code 0) carry 12 more bytes
 Icmp4Ts(b, o) == B(b, o) \in {13, 14} /\ B(b, o + 1) = 0
 ====
